@@ -7,6 +7,7 @@ from .. import paths, waiters
 from ..core import FUNC, call_attr, calls_in, const, dotted, is_const, kwarg, norm, text, walk_local
 
 EXPLANATION = [
+    'C13.role-symmetry: every call of s1/f5/f6/g2 is evaluated under both roles after rewriting own/peer values into initiator/responder tokens; both roles must feed the same tuple (and the specified order); a c1/f4 confirm value is verified with the tuple the other role generates it with; each side sends its own DHKey check and expects the peer\'s.',
     'C13.table: Session.PAIRING_METHODS (5x5 IO capabilities x {legacy, SC}) equals Core spec Vol 3 Part H Table 2.8 (embedded as '
     'oracle), with complementary display/input roles; decide_pairing_method indexes [initiator][responder], selects the legacy/SC '
     'column by the *negotiated* SC flag and the display flag by role, takes the Just Works shortcut iff neither side asks for MITM; '
@@ -354,7 +355,175 @@ def waits(ctx):
     R.floor('C13.waits', 3, 'awaits')
 
 
+
+# --------------------------------------------------------------------------- role symmetry of key derivations
+_PRIM = {
+    'self.r': ('OWN', 'r'), 'command.random_value': ('PEER', 'r'), 'self.peer_random_value': ('PEER', 'r'),
+    'self.ecc_key.x[::-1]': ('OWN', 'pk'), 'self.peer_public_key_x': ('PEER', 'pk'),
+    'self_address': ('OWN', 'addr'), 'peer_address': ('PEER', 'addr'),
+    # in OOB pairing bumble uses the OOB random as the side's nonce as well
+    'self.peer_oob_data.r': ('PEER', 'r'),
+}
+_SIDE = {'I': {'OWN': 'A', 'PEER': 'B'}, 'R': {'OWN': 'B', 'PEER': 'A'}}
+
+
+class _Abs(ast.NodeTransformer):
+    """Rewrite an expression of smp.Session into role-absolute tokens (A = initiator, B = responder)."""
+
+    def __init__(self, prog, cls, role, depth=0):
+        self.prog, self.cls, self.role, self.depth = prog, cls, role, depth
+
+    def _tok(self, side, what):
+        return ast.Name(id=f'{_SIDE[self.role][side]}_{what}', ctx=ast.Load())
+
+    def _role_test(self, t):
+        n = norm(t)
+        if n == 'self.is_initiator':
+            return self.role == 'I'
+        if n == 'self.is_responder':
+            return self.role == 'R'
+        if n == 'not self.is_initiator':
+            return self.role == 'R'
+        return None
+
+    def visit(self, node):
+        n = norm(node) if isinstance(node, ast.expr) else None
+        if n in _PRIM:
+            return self._tok(*_PRIM[n])
+        return super().visit(node)
+
+    def visit_IfExp(self, node):
+        v = self._role_test(node.test)
+        if v is None:
+            return self.generic_visit(node)
+        return self.visit(node.body if v else node.orelse)
+
+    def visit_Subscript(self, node):
+        val = self.visit(node.value)
+        sl = self.visit(node.slice)
+        if isinstance(val, ast.Tuple) and isinstance(sl, ast.Constant) and isinstance(sl.value, int):
+            return val.elts[sl.value]
+        return ast.Subscript(value=val, slice=sl, ctx=node.ctx)
+
+    def visit_Attribute(self, node):
+        d = dotted(node)
+        if d and d.startswith('self.') and d.count('.') == 1 and self.depth < 4:
+            name = d[5:]
+            m = self.cls.methods.get(name)
+            if m is not None and any(text(x) == 'property' for x in m.decorator_list):
+                rets = [x.value for x in walk_local(m) if isinstance(x, ast.Return)]
+                if len(rets) == 1:
+                    return _Abs(self.prog, self.cls, self.role, self.depth + 1).visit(ast.parse(norm(rets[0]), mode='eval').body)
+            # role-dependent attributes set in __init__
+            init = self.cls.methods.get('__init__')
+            for iff in [x for x in walk_local(init) if isinstance(x, ast.If)] if init is not None else []:
+                v = self._role_test(iff.test)
+                if v is None:
+                    continue
+                for st in (iff.body if v else iff.orelse):
+                    if isinstance(st, ast.Assign) and dotted(st.targets[0]) == d:
+                        return _Abs(self.prog, self.cls, self.role, self.depth + 1).visit(ast.parse(norm(st.value), mode='eval').body)
+        return self.generic_visit(node)
+
+
+def _abs(prog, cls, role, e) -> str:
+    e = ast.parse(e if isinstance(e, str) else norm(e), mode='eval').body
+    t = _Abs(prog, cls, role).visit(e)
+    ast.fix_missing_locations(t)
+    return norm(t)
+
+
+def role_symmetry(ctx):
+    """Both roles feed the key-derivation functions the same initiator/responder values; a confirm value is verified with the arguments it was generated with."""
+    from .. import sym
+    R, p = ctx.r, ctx.p
+    rule = 'C13.role-symmetry'
+    cls = p.cls(S)
+    if cls is None:
+        R.bad(rule, S, 'anchor missing')
+        return
+    # 1. the role-absolute accessors mean what their names say
+    want = {'self.pka': 'A_pk', 'self.pkb': 'B_pk', 'self.na': 'A_r', 'self.nb': 'B_r', 'self.ia': 'bytes(A_addr)', 'self.ra': 'bytes(B_addr)',
+            'self.iat': '1 if A_addr.is_random else 0', 'self.rat': '1 if B_addr.is_random else 0'}
+    for acc, w in want.items():
+        got = {role: _abs(p, cls, role, acc) for role in 'IR'}
+        R.check(got == {'I': w, 'R': w}, rule, f'{S} | {acc}', f'{w} for both roles', f'{acc} evaluates to {got["I"]} on the initiator and {got["R"]} on the responder (expected {w} on both): the two sides feed different values into the same derivation', p.loc(cls.node))
+    # 2. collect crypto calls per role
+    calls = {}   # (function qualname, crypto fn, ordinal) -> {role: tuple}
+    fns = []
+    for m in cls.methods.values():
+        fns.append(m)
+        for x in ast.walk(m):
+            if isinstance(x, FUNC) and x is not m:
+                fns.append(x)
+    for fn in fns:
+        own_calls = [c for c in calls_in(fn) if (dotted(c.func) or '').startswith('crypto.') and dotted(c.func)[7:] in ('s1', 'c1', 'f4', 'f5', 'f6', 'g2')]
+        if not own_calls:
+            continue
+        for role in 'IR':
+            seen = {}
+
+            class D(sym.Sym):
+                def on_event(self, node, extra, facts, store):
+                    if isinstance(node, ast.Call) and node in own_calls:
+                        args = tuple(_abs(p, cls, role, self.expr(a, store)) for a in node.args)
+                        seen.setdefault(own_calls.index(node), set()).add(args)
+                    return extra
+            init = (frozenset({('self.is_initiator', role == 'I'), ('self.is_responder', role == 'R')}), frozenset(), None)
+            keep = sym.slice_locals(fn, [a for c in own_calls for a in c.args])
+            try:
+                paths.run(fn, D(fact_filter=lambda t: t in ('self.is_initiator', 'self.is_responder'), store_filter=lambda t: t in keep), init)
+            except Exception as e:  # e.g. a loop re-assigning: fall back to store-less evaluation
+                for i, c in enumerate(own_calls):
+                    seen.setdefault(i, set()).add(tuple(_abs(p, cls, role, a) for a in c.args))
+            for i, tuples in seen.items():
+                calls.setdefault((p.qual_of(fn) if hasattr(p, 'qual_of') else fn.name, dotted(own_calls[i].func)[7:], i), {})[role] = tuples
+    derive = {k: v for k, v in calls.items() if k[1] in ('s1', 'f5', 'f6', 'g2')}
+    ORACLE = {'s1': ('self.tk', 'B_r', 'A_r'), 'g2': ('A_pk', 'B_pk', 'A_r', 'B_r')}
+    n = 0
+    for (fq, cf, i), per in sorted(derive.items()):
+        n += 1
+        both = per.get('I'), per.get('R')
+        ok = both[0] is not None and both[0] == both[1]
+        R.check(ok, rule, f'{fq} | {cf}#{i + 1} same arguments on both sides', f'{cf}{sorted(both[0])[0] if both[0] else ""} for initiator and responder',
+                f'{cf} is fed {sorted(per.get("I") or [])} by the initiator and {sorted(per.get("R") or [])} by the responder: the two sides derive different keys', p.loc(cls.methods.get(fq.split(".")[-1], cls.node)))
+        if ok and cf in ORACLE:
+            t = next(iter(both[0]))
+            R.check(all(x[:len(ORACLE[cf])] == ORACLE[cf] for x in both[0]), rule, f'{fq} | {cf}#{i + 1} argument order', f'{cf}{ORACLE[cf]} as in the specification', f'{cf} is called with {t}, the specification orders them {ORACLE[cf]}', p.loc(cls.node))
+    R.check(n >= 4, rule, f'{S} | key derivations', f'{n} derivation calls (s1, f5, f6 x2, g2) evaluated under both roles', f'only {n} derivation calls found')
+    # 3. confirm values: what one role generates is what the other verifies
+    gen = {}
+    ver = {}
+    for (fq, cf, i), per in calls.items():
+        if cf not in ('c1', 'f4'):
+            continue
+        bucket = gen if 'send_pairing_confirm' in fq else (ver if 'on_smp_pairing_random' in fq else None)
+        if bucket is None:
+            continue
+        for role, tuples in per.items():
+            for t in tuples:
+                bucket.setdefault((cf, role), set()).add(t[:3] if cf == 'f4' else t)
+    for cf in ('c1', 'f4'):
+        for role, other in (('I', 'R'), ('R', 'I')):
+            v = ver.get((cf, role), set())
+            g = gen.get((cf, other), set())
+            if not v and not g:
+                continue
+            R.check(bool(v) and v <= g, rule, f'{S} | {cf} verified by {"initiator" if role == "I" else "responder"}', f'verifies with {sorted(v)}: what the {"responder" if role == "I" else "initiator"} generates',
+                    f'the {"initiator" if role == "I" else "responder"} verifies the peer\'s confirm value with {cf}{sorted(v)} but the peer generates it with {cf}{sorted(g)}: pairing fails (or a wrong value is accepted)', p.loc(cls.node))
+    # 4. DHKey check: each side sends its own and expects the peer's
+    snd = cls.methods.get('send_pairing_dhkey_check_command')
+    rcv = cls.methods.get('on_smp_pairing_dhkey_check_command')
+    if snd is not None and rcv is not None:
+        c = next((c for c in calls_in(snd) if call_attr(c) == 'SMP_Pairing_DHKey_Check_Command'), None)
+        sent = {role: _abs(p, cls, role, kwarg(c, 'dhkey_check', 0)) for role in 'IR'} if c is not None else {}
+        ex = next((n_.value for n_ in walk_local(rcv) if isinstance(n_, ast.Assign) and dotted(n_.targets[0]) == 'expected'), None)
+        exp = {role: _abs(p, cls, role, ex) for role in 'IR'} if ex is not None else {}
+        R.check(sent == {'I': 'self.ea', 'R': 'self.eb'} and exp == {'I': 'self.eb', 'R': 'self.ea'}, rule, f'{S} | DHKey check exchange', 'initiator sends Ea and expects Eb; responder sends Eb and expects Ea', f'DHKey checks sent {sent} / expected {exp}', p.loc(rcv))
+
+
 RULES = [
+    ('C13.role-symmetry', role_symmetry),
     ('C13.table', table),
     ('C13.auth-flag', auth_flag),
     ('C13.fail-sym', fail_sym),
@@ -375,4 +544,10 @@ VARIANTS = [
     ('responder tests initiator mask for ID', 'bumble/smp.py', "            if self.responder_key_distribution & KeyDistribution.ID_KEY:\n", "            if self.initiator_key_distribution & KeyDistribution.ID_KEY:\n", 'fire', 'C13.distribution'),
     ('pair awaits bare', 'bumble/smp.py', "        await self.connection.cancel_on_disconnection(self.pairing_result)\n", "        await self.pairing_result\n", 'fire', 'C13.waits'),
     ('benign: debug text', 'bumble/smp.py', "        logger.debug('pairing complete')\n", "        logger.debug('pairing completed')\n", 'silent', ''),
+    ('STK computed with role-relative argument order', 'bumble/smp.py', "        if self.is_initiator:\n            mrand = self.r\n            srand = command.random_value\n        else:\n            srand = self.r\n            mrand = command.random_value\n        self.stk = crypto.s1(self.tk, srand, mrand)", "        self.stk = crypto.s1(self.tk, command.random_value, self.r)", 'fire', 'C13.role-symmetry'),
+    ('pkb accessor picks the own key on both roles', 'bumble/smp.py', "        return self.pkx[0 if self.is_responder else 1]\n\n    @property\n    def nx", "        return self.pkx[0]\n\n    @property\n    def nx", 'fire', 'C13.role-symmetry'),
+    ('initiator verifies SC confirm with swapped keys', 'bumble/smp.py', "                confirm_verifier = crypto.f4(\n                    self.pkb, self.pka, command.random_value, bytes([0])\n                )", "                confirm_verifier = crypto.f4(\n                    self.pka, self.pkb, command.random_value, bytes([0])\n                )", 'fire', 'C13.role-symmetry'),
+    ('both sides expect Ea', 'bumble/smp.py', "        expected = self.eb if self.is_initiator else self.ea", "        expected = self.ea", 'fire', 'C13.role-symmetry'),
+    ('responder address slots not swapped', 'bumble/smp.py', "            self.ra = bytes(self_address)\n            self.rat = 1 if self_address.is_random else 0\n            self.ia = bytes(peer_address)\n            self.iat = 1 if peer_address.is_random else 0", "            self.ia = bytes(self_address)\n            self.iat = 1 if self_address.is_random else 0\n            self.ra = bytes(peer_address)\n            self.rat = 1 if peer_address.is_random else 0", 'fire', 'C13.role-symmetry'),
+    ('benign: STK branches written responder-first', 'bumble/smp.py', "        if self.is_initiator:\n            mrand = self.r\n            srand = command.random_value\n        else:\n            srand = self.r\n            mrand = command.random_value\n", "        if not self.is_initiator:\n            srand = self.r\n            mrand = command.random_value\n        else:\n            mrand = self.r\n            srand = command.random_value\n", 'silent', ''),
 ]
